@@ -160,6 +160,9 @@ func valOf(typ string, tok, poff int) pq.Val {
 	if typ == "string" && tok == 998 {
 		return pq.Val{Bytes: []byte(noisyString)}
 	}
+	if typ == "string" && tok == 997 {
+		return pq.Val{Bytes: []byte(embeddedFile)}
+	}
 	b, s := bitsOf(poolVal(typ, tok, poff))
 	return pq.Val{Bits: b, Bytes: s}
 }
